@@ -27,17 +27,40 @@ THEOREMS = [
     'IblVerif.C15.clear_iff',
     'IblVerif.C15.feature_rule',
     'IblVerif.C15.labels_are_mode',
+    'IblVerif.C15.outside_rule_guard',
+    'IblVerif.C15.labels_majority',
+    'IblVerif.C15.labels_unanimous',
+    'IblVerif.C15.file_label_vector_length',
+    'IblVerif.C15.detrend_centred_edge_replicated',
+    'IblVerif.C15.weights_depend_on_distance_only',
+    'IblVerif.C15.weights_decay_with_distance',
+    'IblVerif.C15.repair_eq_coeff_sum',
+    'IblVerif.C15.symmetric_donors_equal_weight',
+    'IblVerif.C15.repair_uses_exactly_nearby',
+    'IblVerif.C15.default_donors_on_lattice',
+    'IblVerif.C15.np2_default_donors',
+    'IblVerif.C15.np1_default_donors',
+    'IblVerif.C15.batches_inside_file',
+    'IblVerif.C15.batches_span_file',
+    'IblVerif.C15.batches_evenly_spaced',
 ]
 RULE = ('(a) interp: label vectors over {0,1,2,3} x geometry x data: every label vector for nc <= 4 (quick) / 6 (thorough) on a line, '
         'NP1 and NP2 layouts, plus seeded random cases (nc up to 384; NP1/NP2/NPultra/line/jittered/duplicate-site/cut-off-distance '
         'geometries; label patterns none/all-bad/single/probe ends/clusters of 2..14 adjacent bad channels/random/top block of 3s; data '
-        'normal/constant/ramp/outlier-on-bad/integers, with NaN/+inf/-inf planted in bad channels (whole channel, stretch, single samples) and in good non-donor channels, float64 and float32; default and non-default p, kriging distance): the real '
+        'normal/constant/ramp/outlier-on-bad/integers/identity (the output rows are then the normalised weight vectors), with NaN/+inf/-inf planted in bad channels (whole channel, stretch, single samples) and in good non-donor channels, float64 and float32; default and non-default p, kriging distance): the real '
         'interpolate_bad_channels against the Float twin of the Lean model (values within tolerance, zero rows and untouched rows exact); '
         'non-trivial = at least one bad channel; (b) labels: the real detect_bad_channels on synthetic gain-profile recordings (AP and LF '
         'band, default and explicit thresholds, low-coherence runs at the top / in the middle / split, dead and noisy channels inside '
         'and outside them, PSD planted on both sides of the threshold) -> its own feature vectors through the model decision rule, labels '
         'exact; (c) mode: the real detect_bad_channels_cbin on small flat binary files, per-batch labels observed (and, for ties, planted) '
-        'through a recording wrapper -> model mode, and the sample slices it reads -> Float twin of linspace/int, both exact; '
+        'through a recording wrapper -> model mode over the non-sync channels, and the sample slices it reads -> Float twin of linspace/int, both exact; '
+        "(c') the same on VIRTUAL recordings (a spikeglx.Reader whose memory map is an all-zero virtual array, the detector a stub returning planted labels): "
+        'file exactly one batch long / one sample longer / just under two batches / up to 2^31 samples, integer and fractional sampling rates, '
+        'durations that are inexact in binary, 1..40 batches, 0..2 sync channels -> flags = model mode vector (length = non-sync channels), slices = Float twin, exact; '
+        '(e) donors: identity data through the real interpolate_bad_channels (p=1.3, 20 um passed explicitly) on the real NP1 / NP2 site layouts of '
+        'neuropixel.trace_header -> support of every repaired row = the integer rule of the lattice theorems (squared distance <= 4624 um^2), exact; '
+        '(f) detrend: the helper nested in detect_bad_channels (taken from its code object) on vectors shorter / equal / longer than the window, ties, steps, end spikes, '
+        'window 1..21 -> the model\'s edge-replicated centred median residual, exact; '
         'every part draws the input FORM (dtype, memory layout, scalar types, positional/keyword spelling, Reader/str/Path) independently of the values; '
         '(d) numeric oracle: silent / noisy / outside-brain faults injected on coherent AP backgrounds, labels checked directly')
 ASSUMPTIONS = [
@@ -52,26 +75,45 @@ ASSUMPTIONS = [
     'interp: Float twin compared with tolerance 1e-9*scale (float64) / 2e-6*scale (float32), scale = max |donor candidates|: BLAS matmul order, hypot vs sqrt; '
     'cases in which a raw weight lies within 1e-9 (relative) of the 0.005 cut-off are skipped (never drawn in practice)',
     'over the reals x/0 = 0 plays the role of NumPy nan (weights/0): both make "weights > 0" false, i.e. no donor',
-    'labels: the feature estimators (FFT coherence with the median trace, Welch PSD, Butterworth, median filter) are external; the model starts at the feature vectors returned by the real function',
+    'weights over the reals: exp, real power and square root are Mathlib\'s Real.exp / Real.rpow / Real.sqrt; the theorems need p > 0 and kriging distance > 0 (defaults 1.3, 20); '
+    'the cut-off is the real number 1/200 (the double 0.005 differs from it by 1e-19, far inside the gap 68 um / 75 um the lattice theorems use)',
+    'lattice theorems (np1_default_donors, np2_default_donors) are about p = 1.3, 20 um, 0.005 and the site layouts np1Site / np2Site of Model/BadChannels.lean; the donors comparison passes these parameters '
+    'explicitly and is skipped (noted) when neuropixel.trace_header lays the sites out differently — other defaults or layouts do not violate C15',
+    'batch placement theorems are over the reals (exact arithmetic, int() = truncation) under: fs > 0, batch_duration >= 0, the recording at least one batch long, n_batches >= 1; '
+    'the IEEE evaluation of the same expressions is executed by the driver and compared exactly with the code, not reasoned about',
+    'virtual recordings replace the detector by a stub and the memory map by zeros: they exercise batch placement, channel selection and the mode only; skipped (noted) when a Reader can no longer be set up without a file',
+    'detrend: scipy.signal.medfilt is read as "zero-padded running median of odd length" (the model sorts the window); the helper is reached through the code object of detect_bad_channels and skipped (noted) when it is not there',
+    'labels: the spectral feature estimators (FFT coherence with the median trace, Welch PSD, Butterworth) are external; the model starts at the feature vectors returned by the real function',
     'detection oracle domain: one silent channel, one noisy channel (50 uV), one top block of 0..40 channels (0..nc/4 on the reduced 64/96-channel probes) on a common-mode AP background (20 uV common, 5 uV independent noise, 0.1 or 0.3 s); '
     'the silent channel is placed in 1..nc-2 without a top block, resp. at least 7 channels below the block; the noisy channel is either background + noise (anywhere, also inside the block) '
     'or pure noise (then not 2..6 channels below the block and at least 11 channels from the silent one) — known findings dead-at-probe-ends, dead-just-below-top-block',
     'mode: n_batches >= 1 and the recording at least one batch long',
 ]
 TRUSTED = [
-    'numpy/scipy externals: np.exp, ** (pow), np.abs(complex) = hypot, np.matmul, np.sum, scipy.stats.mode (smallest most frequent value), np.linspace',
-    'the feature estimators of detect_bad_channels (scipy.fft, scipy.signal.welch/butter/sosfiltfilt/medfilt) — only exercised, never modelled',
-    'constants 0.005, -0.75, 0.02 / 1.4 (band switch at 2600 Hz) are hard-coded in Model/BadChannels.lean and tied to the source by cases on both sides of each',
+    'numpy/scipy externals: np.matmul, np.sum, scipy.stats.mode (smallest most frequent value), np.linspace, scipy.signal.medfilt; np.exp / ** / np.abs(complex) are Real.exp / Real.rpow / sqrt in the theorems '
+    'and Float.exp / Float.pow / Float.sqrt in the executed twin (compared to 1e-9)',
+    'the spectral feature estimators of detect_bad_channels (scipy.fft, scipy.signal.welch/butter/sosfiltfilt) — only exercised, never modelled',
+    'constants 0.005, -0.75, 0.02 / 1.4 (band switch at 2600 Hz) are hard-coded in Model/BadChannels.lean and tied to the source by cases on both sides of each; that the code calls detrend with the window 11 is not modelled (the detrend model and theorem are for every window)',
+    'translator tie (harness/pyfn2lean.py, Tie/C15.lean): its reading of the source text of detect_bad_channels (label-vector size, guard of the outside-brain rule, gap-count literals), detrend (ntap) and detect_bad_channels_cbin (non-sync channel count)',
 ]
 LEVEL_TEXT = ('Lean 4 theorems for all channel counts, label vectors, weight matrices and data: rows not labelled 1/2 are returned identical (for every scalar type, '
               'incl. IEEE Float); over the reals the sequential in-place loop equals the parallel repair from the original data for every visiting order, each repaired row '
               'is a convex combination of non-bad channels with raw weight >= cut-off (hence within their min/max at every sample) or zero when there is none; '
-              'label precedence 2 > 1 > 3, label 3 = exactly the contiguous low-coherence run ending at the last channel, file labels = smallest most frequent batch label; '
-              'model tied to the code by a differential run; detection of injected faults is NUMERIC ONLY (partial)')
+              'with the code\'s weights exp(-(d/krig)^p) (every geometry, p > 0, krig > 0) the contributing channels are EXACTLY the non-bad channels within the radius krig*log(1/thr)^(1/p), '
+              'weights depend on the distance only, equidistant donors get equal coefficients and nearer ones never smaller; on the NP1 / NP2 lattices with the default parameters the donor set is '
+              'given by an integer rule (<= 4 rows on NP2; <= 2 rows, or 3 rows and <= 32 um sideways, on NP1); '
+              'label precedence 2 > 1 > 3, label 3 = exactly the contiguous low-coherence run ending at the last channel (none unless the last channel itself is low), file labels = smallest most frequent batch label '
+              '(majority / unanimity corollaries), one flag per non-sync channel; batches of a file of any length lie inside it, start at sample 0, end at the last sample, evenly spaced (exact arithmetic); '
+              'detrend = residual of a centred running median with edge replication, never reached by medfilt\'s zero padding; '
+              'model tied to the code by a differential run and, for the decision skeleton of detect_bad_channels / detrend / detect_bad_channels_cbin, by the translator tie; '
+              'detection of injected faults is NUMERIC ONLY (partial)')
 LEVEL_NOTE = ('partial: "a silent channel is labelled dead, a noisy one noisy, a top block outside" is checked by a calibrated numeric oracle on synthetic recordings, not proved; '
-              'exp/pow, the spectral estimators and scipy.stats.mode are trusted externals; two input classes of the detection are known findings')
-TECHNIQUE = ('Lean 4 proofs (induction over the repair loop, list-index arithmetic with omega for the cumsum/diff rule, Mathlib ordered-field lemmas for convexity) + '
-             'differential run against a Float twin + numeric fault-injection oracle (partial)')
+              'the spectral estimators, scipy.stats.mode and medfilt are trusted externals (mode and medfilt are modelled and compared exactly); the float rounding of the weights and of the batch positions is executed and compared, not proved '
+              '(theorems are over the reals); the translator tie covers only the integer/decision skeleton named above — interpolate_bad_channels, the label stores and the linspace loop are tied by the correspondence run alone; '
+              'three input classes are known findings')
+TECHNIQUE = ('Lean 4 proofs (induction over the repair loop, list-index arithmetic with omega for the cumsum/diff rule and the detrend padding, Mathlib ordered-field lemmas for convexity, '
+             'Real.exp/rpow/log monotonicity and explicit exp bounds for the donor radius, Int.floor arithmetic for the batch placement) + source-to-Lean translator tie for the decision skeleton + '
+             'differential run against a Float twin (incl. file-less virtual recordings) + numeric fault-injection oracle (partial)')
 
 CUT = 0.005
 
@@ -159,7 +201,7 @@ def label_vector(kind, nc, rng):
 
 
 LABEL_KINDS = ('none', 'all-bad', 'single', 'ends', 'cluster', 'random', 'mostly-bad', 'top3')
-DATA_KINDS = ('normal', 'const', 'ramp', 'outlier', 'ints', 'pedestal')
+DATA_KINDS = ('normal', 'const', 'ramp', 'outlier', 'ints', 'pedestal', 'identity')
 NONFINITE = ('none', 'channel', 'stretch', 'samples')
 
 
@@ -172,6 +214,8 @@ def data_matrix(kind, nc, ns, lab, y, rng):
         d = rng.integers(-32768, 32768, (nc, ns)).astype(float)
     elif kind == 'pedestal':                      # a range that excludes 0 (raw counts around an offset)
         d = float(rng.choice([1000., -2000., 300.])) + rng.uniform(0, 100, (nc, ns))
+    elif kind == 'identity':                      # the output rows ARE the normalised weight vectors (first ns channels)
+        d = np.eye(nc, ns) * float(rng.choice([1., 1000.]))
     elif kind == 'outlier':
         d = rng.uniform(1, 2, (nc, ns))
         bad = (lab == 1) | (lab == 2)
@@ -299,6 +343,8 @@ def interp_cases(ctx):
         lk = str(rng.choice(LABEL_KINDS))
         lab = label_vector(lk, nc, rng)
         dk = str(rng.choice(DATA_KINDS))
+        if dk == 'identity' and nc <= 64:
+            ns = nc
         d = data_matrix(dk, nc, ns, lab, y, rng)
         dflt = bool(rng.random() < .8)
         if dflt:
@@ -867,7 +913,8 @@ def corr_cbin(ctx):
         if np.any(flat != np.round(flat)) or np.any(flat < 0):
             ctx.compare('mode', desc, 'non-integer batch labels', 'ok', tags=('mode',))
             continue
-        lines.append(f'mode {len(batches)} {c["nc"]} ' + _ints(flat))
+        nct, nsy = (385, 1) if (c.get('form') or CBIN_FORM)['file'] != 'reader' else (c['nc'], 0)   # channels in a frame, sync channels
+        lines.append(f'mode {len(batches)} {nct} {nsy} ' + _ints(flat))
         cnts = [collections.Counter(int(b[ch]) for b in batches) for ch in range(c['nc'])]
         ties = sum(1 for k in cnts if sorted(k.values())[-2:].count(max(k.values())) == 2)
         meta.append(('mode', desc, 'ok ' + _ints(flags) if np.all(flags == np.round(flags)) else f'non-integer {flags[:6]}',
@@ -889,11 +936,328 @@ def corr_cbin(ctx):
         nb, nc = int(rng.integers(1, 13)), int(rng.integers(1, 9))
         m = rng.choice(4, (nc, nb), p=rng.dirichlet([1, 1, 1, 1])).astype(float)
         fl, _ = scipy.stats.mode(m, axis=1)
-        lines.append(f'mode {nb} {nc} ' + _ints(m.T.ravel()))
+        lines.append(f'mode {nb} {nc} 0 ' + _ints(m.T.ravel()))
         meta.append(({'op': 'mode-matrix', 'nb': nb, 'nc': nc, 'm': m.astype(int).tolist()}, 'ok ' + _ints(fl)))
     ans = ctx.lean(lines)
     for (desc, impl_s), a in zip(meta, ans):
         ctx.compare('mode-matrix', desc, impl_s, a, nontrivial=desc['nb'] > 1, tags=('mode-matrix',))
+
+
+# ---------------------------------------------------------------------------------------------
+# (c') detect_bad_channels_cbin on a VIRTUAL recording: every length / rate / duration / batch count, no file
+# ---------------------------------------------------------------------------------------------
+class _VirtualRaw:
+    """stands for the memory map of a flat binary file of ns frames x nct channels (all zeros); records the sample slices read"""
+
+    def __init__(self, ns, nct):
+        self.ns, self.nct, self.asked = int(ns), int(nct), []
+
+    def __getitem__(self, item):
+        nsel = item[0] if isinstance(item, tuple) else item
+        self.asked.append((nsel.start, nsel.stop))
+        return np.zeros((len(range(*nsel.indices(self.ns))), self.nct), dtype=np.float32)
+
+    def close(self):
+        pass
+
+
+def _virtual_reader(ns, nct, nsync, fs):
+    """a spikeglx.Reader whose attributes are those of a meta-less Reader on a flat float32 file of ns x nct samples, with the
+    memory map replaced by _VirtualRaw: the real Reader.read / __getitem__ / ns / nc / nsync / fs / rl run unmodified.
+    Returns None when the Reader's internals no longer allow this (then the virtual cases are skipped, never reported)."""
+    import spikeglx
+    try:
+        sr = spikeglx.Reader.__new__(spikeglx.Reader)
+        sr.__dict__.update(geometry=None, ignore_warnings=True, ch_file=None, file_bin=Path('/nonexistent/virtual.bin'),
+                           nbytes=int(ns) * int(nct) * 4, dtype=np.dtype('float32'), file_meta_data=None, meta=None,
+                           _nc=int(nct), _fs=fs, _ns=int(ns), _nsync=int(nsync),
+                           channel_conversion_sample2v={'samples': np.ones(int(nct))}, _raw=_VirtualRaw(ns, nct))
+        ok = (sr.ns == ns and sr.nc == nct and sr.nsync == nsync and sr.fs == fs and sr.rl == ns / fs
+              and sr[0:2, :1].shape == (min(2, ns), 1) and sr._raw.asked == [(0, 2)])
+        sr._raw.asked.clear()
+        return sr if ok else None
+    except Exception:  # noqa
+        return None
+
+
+def virtual_cases(ctx, n):
+    """(ns, nct, nsync, fs, dur, nb, seed): boundary-biased — file exactly one batch long, one sample longer, just short of two
+    batches, very long files, non-integer sampling rates, durations that are not exact in binary, 1..40 batches"""
+    rng = ctx.rng
+    out = []
+    for k in range(n):
+        fs = float(rng.choice([30000., 30000., 2500., 20000., 30000.27, 29999.71, 2500.02, 1000., 32000.5]))
+        if rng.random() < .4:
+            fs = int(fs)                                        # a meta-less Reader stores the rate as an int
+        dur = float(rng.choice([0.3, 0.3, 0.1, 0.05, 0.25, 1.0, 0.37, 0.01, 1 / 3]))
+        nb = int(rng.choice([10, 10, 1, 2, 3, 4, 5, 7, 12, 25, 40])) if rng.random() < .8 else int(rng.integers(1, 41))
+        nsb = int(dur * fs)
+        need = int(np.ceil(dur * fs)) + 1                       # domain: the recording is at least one batch long
+        r = rng.random()
+        if r < .45:
+            ns = int(rng.choice([need, need + 1, 2 * nsb - 1, 2 * nsb, 2 * nsb + 1, nb * nsb, nb * nsb + 1, nb * nsb - 1]))
+        elif r < .8:
+            ns = int(rng.integers(need, 40 * nsb + 2))
+        else:
+            ns = int(rng.choice([10 ** 7, 108_000_000, 2 ** 31 - 1, 2 ** 31 + 5, 10 ** 9 + 7])) + int(rng.integers(0, 1000))
+        ns = max(ns, need)
+        nsync = int(rng.choice([0, 0, 1, 1, 2]))
+        nca = int(rng.integers(1, 7))
+        out.append(dict(ns=ns, nct=nca + nsync, nsync=nsync, fs=fs, dur=dur, nb=nb, seed=int(rng.integers(0, 2 ** 31)),
+                        call=str(rng.choice(['kw', 'pos']))))
+    return out
+
+
+def _planted(c):
+    rng = np.random.default_rng([c['seed'], 78])
+    nca, nb = c['nct'] - c['nsync'], c['nb']
+    pl = rng.choice(4, (nb, nca), p=rng.dirichlet([2, 1, 1, 1]))
+    if nb >= 2:                                                  # exact ties on channel 0; a clear majority on the last channel
+        pl[: nb // 2, 0], pl[nb // 2:, 0] = 3, 1
+        pl[:, -1] = 2
+        pl[0, -1] = 0 if nb >= 3 else 2
+    return pl
+
+
+def _run_virtual(c):
+    """the real detect_bad_channels_cbin on a virtual recording; the detector itself is replaced by a stub that hands back
+    planted labels (what is exercised is the batch placement, the channel selection and the mode).
+    Returns None when no virtual reader can be built, else (flags, raw shapes seen by the detector, slices read, fs seen)."""
+    from ibldsp import voltage
+    sr = _virtual_reader(c['ns'], c['nct'], c['nsync'], c['fs'])
+    if sr is None:
+        return None
+    pl = _planted(c)
+    seen, fss = [], []
+
+    def stub(raw, fs=None, *a, **k):
+        lab = np.zeros(np.shape(raw)[0])                            # one label per row the detector is given
+        k = min(lab.size, pl.shape[1])
+        lab[:k] = pl[len(seen)][:k]
+        seen.append(tuple(np.shape(raw)))
+        fss.append(fs)
+        return lab, {'xcor_hf': np.zeros(lab.size), 'xcor_lf': np.zeros(lab.size), 'psd_hf': np.zeros(lab.size)}
+
+    real = voltage.detect_bad_channels
+    voltage.detect_bad_channels = stub
+    try:
+        if c.get('call') == 'pos':
+            flags = _quiet(voltage.detect_bad_channels_cbin, sr, c['nb'], c['dur'])
+        else:
+            flags = _quiet(voltage.detect_bad_channels_cbin, sr, n_batches=c['nb'], batch_duration=c['dur'])
+    finally:
+        voltage.detect_bad_channels = real
+    return np.asarray(flags), seen, list(sr._raw.asked), fss
+
+
+def oracle_cbin_virtual(c):
+    """the file half of C15 stated directly on a virtual recording: one flag per non-sync channel = smallest most frequent batch
+    label; n_batches batches of batch_duration (one sample of rounding), inside the file, the first at its start, the last
+    ending at its end, evenly spaced"""
+    try:
+        r = _run_virtual(c)
+    except Exception as e:  # noqa
+        return f'detect_bad_channels_cbin raised {type(e).__name__}: {e} on a {c["ns"]}-sample recording ({c["nb"]} batches of {c["dur"]} s at {c["fs"]} Hz)'
+    if r is None:
+        return None
+    flags, seen, slices, _ = r
+    pl = _planted(c)
+    nca = c['nct'] - c['nsync']
+    if flags.shape != (nca,):
+        return f'channel_flags has shape {flags.shape}, the recording has {nca} non-sync channels'
+    if len(seen) != c['nb'] or len(slices) != c['nb']:
+        return f'{len(seen)} batches analysed, {c["nb"]} requested'
+    for ch in range(nca):
+        cnt = collections.Counter(int(v) for v in pl[:, ch])
+        best = max(cnt.values())
+        mode = min(v for v, k in cnt.items() if k == best)
+        if flags[ch] != mode:
+            return f'channel {ch}: batch labels {pl[:, ch].tolist()} have mode {mode}, returned {flags[ch]!r}'
+    nsb = c['dur'] * c['fs']
+    for (a, b), sh in zip(slices, seen):
+        if a is None or b is None or a < 0 or b > c['ns'] or not (nsb - 1 <= b - a <= nsb + 1):
+            return f'batch slice ({a}, {b}) is not inside the {c["ns"]}-sample file / not batch_duration ({nsb:.6g} samples) long'
+        if sh != (nca, b - a):
+            return f'the detector was given an array of shape {sh} for the slice ({a}, {b}) of {nca} non-sync channels'
+    if slices[0][0] != 0:
+        return f'first batch starts at sample {slices[0][0]}'
+    if len(slices) > 1:
+        if abs(slices[-1][1] - c['ns']) > 1:
+            return f'last batch {slices[-1]} does not end at the end of the file ({c["ns"]} samples)'
+        d = np.diff([a for a, _ in slices])
+        if d.max() - d.min() > 1:
+            return f'batches not evenly spaced: starts {[a for a, _ in slices][:8]}'
+    return None
+
+
+def corr_cbin_virtual(ctx):
+    cases = virtual_cases(ctx, ctx.n(600, 6000))
+    lines, meta = [], []
+    nskip = 0
+    for c in cases:
+        desc = {'op': 'mode-virtual', **c}
+        pay = {'kind': 'cbin-virtual', **c}
+        try:
+            r = _run_virtual(c)
+        except Exception as e:  # noqa
+            if not ctx.compare('mode-virtual', desc, f'err {type(e).__name__}: {e}'[:200], 'ok', tags=('mode-virtual', 'raised')):
+                ctx.mismatches[-1]['payload'] = pay
+            continue
+        if r is None:
+            nskip += 1
+            continue
+        flags, seen, slices, fss = r
+        pl = _planted(c)
+        nca = c['nct'] - c['nsync']
+        shapes_ok = all(sh == (nca, b - a) for sh, (a, b) in zip(seen, slices)) and len(seen) == c['nb']
+        lines.append(f'mode {c["nb"]} {c["nct"]} {c["nsync"]} ' + _ints(pl.ravel()))
+        impl = ('ok ' + _ints(flags)) if (flags.ndim == 1 and np.all(flags == np.round(flags)) and shapes_ok) else \
+            f'flags {flags.tolist()[:8]} detector input shapes {seen[:3]} for slices {slices[:3]}'
+        cnts = [collections.Counter(int(v) for v in pl[:, ch]) for ch in range(nca)]
+        ties = sum(1 for k in cnts if sorted(k.values())[-2:].count(max(k.values())) == 2)
+        meta.append(('mode-virtual', desc, impl, c['nb'] > 1,
+                     ('mode-virtual', 'nsync=%d' % c['nsync'], 'ties' if ties else 'no-ties',
+                      'nb=1' if c['nb'] == 1 else 'nb=2..5' if c['nb'] <= 5 else 'nb>5', 'cbin-call=' + c['call']), pay))
+        lines.append(f'slices {c["ns"]} {_bits([float(c["fs"])])} {_bits([c["dur"]])} {c["nb"]}')
+        d2 = dict(desc); d2['op'] = 'slices-virtual'
+        nsb = int(c['dur'] * c['fs'])
+        meta.append(('slices-virtual', d2, 'ok ' + ';'.join(f'{a},{b}' for a, b in slices), c['nb'] > 1,
+                     ('slices-virtual', 'fs-int' if float(c['fs']) == int(c['fs']) else 'fs-fractional',
+                      'one-batch-long' if c['ns'] <= nsb + 2 else 'under-two-batches' if c['ns'] < 2 * nsb else
+                      'huge' if c['ns'] >= 10 ** 7 else 'longer', 'dur=%.3g' % c['dur']), pay))
+    ans = ctx.lean(lines)
+    for (op, desc, impl_s, nt, tags, pay), a in zip(meta, ans):
+        if not ctx.compare(op, desc, impl_s, a, nontrivial=nt, tags=tags):
+            ctx.mismatches[-1]['payload'] = pay
+    if nskip:
+        ctx.note(f'virtual recordings: {nskip} case(s) skipped (a spikeglx.Reader can no longer be set up without a file); '
+                 'the file cases of (c) remain')
+
+
+# ---------------------------------------------------------------------------------------------
+# (e) donors on the real probe lattices with the default parameters; (f) detrend
+# ---------------------------------------------------------------------------------------------
+DONOR_P, DONOR_KRIG = 1.3, 20.0      # the parameters the lattice theorems are stated for (passed EXPLICITLY to the code)
+
+
+def donor_cases(ctx, n):
+    rng = ctx.rng
+    out = []
+    for k in range(n):
+        kind = ('np1', 'np2')[k % 2]
+        nc = int(rng.choice([8, 12, 16, 24, 32, 48, 64, 96])) if rng.random() < .8 else int(rng.integers(1, 97))
+        lk = str(rng.choice(['single', 'ends', 'cluster', 'random', 'mostly-bad', 'top3', 'all-bad']))
+        out.append(dict(kind=kind, nc=nc, lab=label_vector(lk, nc, rng), lk=lk))
+    return out
+
+
+def _donor_case_as_interp(c):
+    """the donors case as an interpolation case (identity data: output row c = the normalised weights of bad channel c)"""
+    import neuropixel
+    h = neuropixel.trace_header(version={'np1': 1, 'np2': 2}[c['kind']])
+    nc = c['nc']
+    return dict(nc=nc, ns=nc, lab=np.asarray(c['lab'], dtype=int), x=np.asarray(h['x'][:nc], dtype=float), y=np.asarray(h['y'][:nc], dtype=float),
+                data=np.eye(nc), p=DONOR_P, krig=DONOR_KRIG, default=False, form=dict(DEFAULT_FORM), tags=())
+
+
+def corr_donors(ctx):
+    cases = donor_cases(ctx, ctx.n(120, 1200))
+    sites = ctx.lean(['sites np1 96', 'sites np2 96'])
+    model_xy = {}
+    for kind, a in zip(('np1', 'np2'), sites):
+        model_xy[kind] = np.array([[int(v) for v in q.split(',')] for q in a[3:].split(';')], dtype=float) if a.startswith('ok ') else None
+    ans = ctx.lean([f'donors {c["kind"]} {c["nc"]} ' + _ints(c['lab']) for c in cases])
+    nskip = 0
+    for c, a in zip(cases, ans):
+        ic = _donor_case_as_interp(c)
+        mxy = model_xy[c['kind']]
+        if mxy is None or not (np.array_equal(mxy[:c['nc'], 0], ic['x']) and np.array_equal(mxy[:c['nc'], 1], ic['y'])):
+            nskip += 1          # neuropixel.trace_header no longer lays the sites out as the lattice theorems assume: nothing to compare
+            continue
+        lab = ic['lab']
+        bad = np.where((lab == 1) | (lab == 2))[0]
+        desc = {'op': 'donors', 'kind': c['kind'], 'nc': c['nc'], 'labels': ''.join(map(str, lab.tolist()))}
+        out = run_interp(ic)
+        if isinstance(out, tuple):
+            impl_s = f'err {out[1]}'
+        else:
+            rows = []
+            for i in bad:
+                d = np.where(out[i] != 0)[0]
+                rows.append(f'{int(i)}:' + (','.join(map(str, d.tolist())) if d.size else '-'))
+            untouched = all(np.array_equal(out[j], ic['data'][j]) for j in range(c['nc']) if j not in set(bad.tolist()))
+            impl_s = 'ok ' + (';'.join(rows) if rows else '-') + ('' if untouched else ' (good rows modified)')
+        nd = [len(r.split(':')[1].split(',')) if not r.endswith(':-') else 0 for r in impl_s[3:].split(';')] if bad.size and impl_s.startswith('ok ') else [0]
+        ok = ctx.compare('donors', desc, impl_s, a, nontrivial=bad.size > 0,
+                         tags=('donors', 'lattice=' + c['kind'], 'labels=' + c['lk'], 'some-bad-without-donor' if 0 in nd and bad.size else 'all-bad-have-donors',
+                               'max-donors>=12' if max(nd) >= 12 else 'max-donors<12'))
+        if not ok:
+            ctx.mismatches[-1]['payload'] = _interp_payload(ic)
+    if nskip:
+        ctx.note(f'donors: {nskip} case(s) skipped (neuropixel.trace_header differs from the lattice of Model/BadChannels.lean np1Site / np2Site)')
+
+
+def _nested_function(fn, name):
+    """a helper whose name contains `name` and that takes two arguments, as a callable: nested in `fn` (built from fn's code
+    object; works when it closes over nothing) or at module level next to `fn`; None when there is none (then the cases are
+    skipped, never reported)"""
+    import types
+    try:
+        for c in fn.__code__.co_consts:
+            if isinstance(c, types.CodeType) and name in c.co_name and not c.co_freevars and c.co_argcount == 2:
+                return types.FunctionType(c, fn.__globals__, c.co_name)
+        for k, g in fn.__globals__.items():
+            if name in k and isinstance(g, types.FunctionType) and g.__module__ == fn.__module__ and g.__code__.co_argcount == 2:
+                return g
+        return None
+    except Exception:  # noqa
+        return None
+
+
+def detrend_cases(ctx, n):
+    rng = ctx.rng
+    out = []
+    for _ in range(n):
+        nmed = int(rng.choice([11, 11, 11, 1, 3, 5, 7, 21]))
+        r = rng.random()
+        ln = int(rng.integers(1, 8)) if r < .3 else int(rng.choice([nmed // 2, nmed // 2 + 1, nmed - 1, nmed, nmed + 1, 2 * nmed])) if r < .6 else int(rng.integers(1, 60))
+        ln = max(ln, 1)
+        kind = str(rng.choice(['normal', 'small-ints', 'step', 'const', 'end-spikes', 'ramp']))
+        if kind == 'normal':
+            x = rng.standard_normal(ln)
+        elif kind == 'small-ints':
+            x = rng.integers(-2, 3, ln).astype(float)
+        elif kind == 'step':
+            x = np.where(np.arange(ln) < rng.integers(0, ln + 1), 1.0, float(rng.choice([-0.9, 5., 1.]))) + 0.0
+        elif kind == 'const':
+            x = np.full(ln, float(rng.choice([0., 1., -0.25, 1e-3])))
+        elif kind == 'end-spikes':
+            x = rng.standard_normal(ln) * 0.01
+            x[0] = float(rng.choice([3., -3.])); x[-1] = float(rng.choice([3., -3.]))
+        else:
+            x = 0.1 * np.arange(ln) - 1.0
+        out.append((nmed, np.asarray(x, dtype=float), kind))
+    return out
+
+
+def corr_detrend(ctx):
+    from ibldsp import voltage
+    f = _nested_function(voltage.detect_bad_channels, 'detrend')
+    if f is None:
+        ctx.note('detrend: the helper is not reachable as a nested / module-level function of ibldsp.voltage: cases skipped')
+        return
+    cases = detrend_cases(ctx, ctx.n(400, 4000))
+    ans = ctx.lean([f'detrend {nmed} ' + _bits(x) for nmed, x, _ in cases])
+    for (nmed, x, kind), a in zip(cases, ans):
+        desc = {'op': 'detrend', 'nmed': nmed, 'n': int(x.size), 'x': [float(v) for v in x[:12]]}
+        try:
+            r = np.asarray(_quiet(f, x.copy(), nmed), dtype=float)
+            impl_s = 'ok ' + _bits(r + 0.0)                      # -0.0 and 0.0 are the same value
+        except Exception as e:  # noqa
+            impl_s = f'err {type(e).__name__}'
+        m = ('ok ' + _bits(_unbits(a[3:]) + 0.0)) if a.startswith('ok ') else a
+        ctx.compare('detrend', desc, impl_s, m, nontrivial=x.size > 1 and nmed > 1,
+                    tags=('detrend', 'nmed=%d' % nmed, 'data=' + kind, 'shorter-than-window' if x.size < nmed else 'window-fits'))
 
 
 # ---------------------------------------------------------------------------------------------
@@ -969,7 +1333,13 @@ def correspondence(ctx):
     t3 = time.time()
     corr_cbin(ctx)
     t4 = time.time()
-    ctx.note(f'timing: interp {t1 - t0:.1f}s, fault oracle {t2 - t1:.1f}s, labels {t3 - t2:.1f}s, cbin/mode {t4 - t3:.1f}s')
+    corr_cbin_virtual(ctx)
+    t5 = time.time()
+    corr_donors(ctx)
+    corr_detrend(ctx)
+    t6 = time.time()
+    ctx.note(f'timing: interp {t1 - t0:.1f}s, fault oracle {t2 - t1:.1f}s, labels {t3 - t2:.1f}s, cbin/mode {t4 - t3:.1f}s, '
+             f'virtual recordings {t5 - t4:.1f}s, donors/detrend {t6 - t5:.1f}s')
     ctx.exhaustive = False
 
 
@@ -1014,6 +1384,8 @@ def _size(payload):
         return (0, payload['nc'], payload['ns'], sum(1 for v in payload['labels'] if v in (1, 2)))
     if payload['kind'] == 'fault':
         return (1, payload['nc'], payload['ns'], 0)
+    if payload['kind'] == 'cbin-virtual':
+        return (2, payload['nct'], min(payload['ns'], 10 ** 6), payload['nb'])
     return (2, payload['nc'], payload['ns'], payload['nb'])
 
 
@@ -1024,6 +1396,8 @@ def _check(payload):
         return oracle_fault(payload)[0]
     if payload['kind'] == 'cbin':
         return oracle_cbin(payload)[0]
+    if payload['kind'] == 'cbin-virtual':
+        return oracle_cbin_virtual(payload)
     if payload['kind'] == 'interp-scale':
         import framework as F
         import importlib
@@ -1036,6 +1410,8 @@ HOW = {'interp-scale': 'python: harness/props/c15.py oracle_interp(scale_interp_
                        'channels, more than 65536 samples (random content regenerated from the seed), ibldsp.voltage.interpolate_bad_channels',
        'interp': 'python: harness/props/c15.py oracle_interp(_interp_from_payload(input)) — calls ibldsp.voltage.interpolate_bad_channels(data, labels, x, y, p, kriging_distance_um)',
        'fault': 'python: harness/props/c15.py oracle_fault(input) — synth_fault(seed, …) then ibldsp.voltage.detect_bad_channels(x, fs)',
+       'cbin-virtual': 'python: harness/props/c15.py oracle_cbin_virtual(input) — ibldsp.voltage.detect_bad_channels_cbin on a spikeglx.Reader whose memory map is '
+                       'replaced by an all-zero virtual array of input["ns"] x input["nct"] samples (no file), the detector replaced by a stub returning planted labels',
        'cbin': 'python: harness/props/c15.py oracle_cbin(input) — build_cbin(input) written to a flat float32 file, ibldsp.voltage.detect_bad_channels_cbin(Reader, n_batches, batch_duration)'}
 
 
@@ -1080,11 +1456,11 @@ def search(ctx, reasons):
     only = None
     if ops and ops <= {'interp-scale'}:
         only = 'scale'
-    elif ops and ops <= {'interp'}:
+    elif ops and ops <= {'interp', 'donors'}:
         only = 'interp'
-    elif ops and ops <= {'labels', 'fault'}:
+    elif ops and ops <= {'labels', 'fault', 'detrend'}:
         only = 'fault'
-    elif ops and ops <= {'mode', 'slices', 'mode-matrix'}:
+    elif ops and ops <= {'mode', 'slices', 'mode-matrix', 'mode-virtual', 'slices-virtual'}:
         only = 'cbin'
     best = None
 
@@ -1134,6 +1510,10 @@ def search(ctx, reasons):
                      planted=True)
             if consider(c):
                 break
+        if best is None:
+            for c in virtual_cases(ctx, 300):
+                if consider(dict(kind='cbin-virtual', **c)):
+                    break
         if best is None:
             for c in cbin_cases(ctx, 30):
                 if consider(dict(kind='cbin', **c)):
